@@ -347,6 +347,11 @@ fn build_items<'a>(u: &'a U, run: &Run) -> Vec<Item<'a>> {
             from = to;
         }
     }
+    // `--only part:other-version`: just the inputs written by other versions and the nested-evolved
+    // declarations (a sub-run of the same sweep, for a quick look at those parts at thorough scale)
+    if run.only.as_deref() == Some("part:other-version") {
+        items.retain(|it| matches!(it.kind, Kind::CrossVersion { .. }) || it.e.tags.contains(&"evolved_nested"));
+    }
     items
 }
 
